@@ -69,6 +69,16 @@ def c01():
     return [lookup.NameLookup(), pipeline.CompileRun()]
 
 
+def c13():
+    from harness import pipeline
+    return [pipeline.SymbolsDescribe()]
+
+
+def c17():
+    from harness import pipeline
+    return [pipeline.UnusedReallyUnused()]
+
+
 def c03():
     from harness import symtab, pipeline
     return [symtab.SymbolTable(), pipeline.ClassicBuilds()]
@@ -88,6 +98,8 @@ REGISTRY = {
     'C14': dict(harnesses=c14, run=_runner('C14', c14)),
     'C02': dict(harnesses=c02, run=_runner('C02', c02)),
     'C03': dict(harnesses=c03, run=_runner('C03', c03)),
+    'C17': dict(harnesses=c17, run=_runner('C17', c17)),
+    'C13': dict(harnesses=c13, run=_runner('C13', c13)),
     'C01': dict(harnesses=c01, run=_runner('C01', c01)),
     'C18': dict(harnesses=c18, run=_runner('C18', c18)),
     'C19': dict(harnesses=c19, run=_runner('C19', c19)),
